@@ -105,11 +105,30 @@ def check_c01(run):
     run.build_harness()
     run.selftest()
     run_parse_families(run, c01_families(run), keys="std")
+    run_traces(run, salt=1, parse_only=95)
     run.assumptions += ["IDNA mapping of non-ASCII / xn-- labels is taken as given (behaviours needing it are skipped in E-mode and inferred from the log in T-mode)",
                         "bounded: every string over each family alphabet up to the stated length; longer inputs only through recorded random traces"]
     return run.finish("model_checking", "every string over a family alphabet (the characters the parser states branch on) up to the family bound, "
                       "times every base of the family; one TLC step per parser-loop iteration; a case is distinct by its expected outcome "
                       "(expected serialization, or failure); distinct_nontrivial counts distinct expected outcomes")
+
+
+def run_traces(run, n_quick=3000, n_thorough=50000, salt=0, maxlen=90, parse_only=50, pinned=None):
+    """T-mode: record seeded random executions of the real code and validate them with TLC (Trace_Api.tla).
+    Only the verdicts that speak about this property (their tag names it) or a crash are this check's business."""
+    n = n_quick if run.tier == "quick" else n_thorough
+    rounds = 1 if run.tier == "quick" else 4
+    for i in range(rounds):
+        bad, nev = run.record_and_validate(n // rounds, seed_salt=salt * 10 + i, maxlen=maxlen if i % 2 == 0 else 200, parse_only=parse_only, pinned=pinned if i == 0 else None)
+        mine = []
+        for ev, verdicts in bad:
+            vs = [v for v in verdicts if run.prop in v.split(":")[0] or v == "crash"]
+            if vs:
+                mine.append((dict(ev, k="trace", **{"in": ev.get("a", [])}), vs))
+        absorb_events(run, mine, "recorded-traces")
+    if len(run.samples) < 12:
+        run.samples.append("[T-mode] %d events recorded from seeded random drivers on the real code (WPT-corpus mutation, raw bytes, histories over parse/resolve/setters/"
+                           "SearchParams/clone on 3 handles) and validated by TLC against UrlApi.tla, state adopted from the log after every event" % n)
 
 
 def run_api_families(run, fams, keys="all", spmodes="late,early", params=True, workers=None):
@@ -141,6 +160,7 @@ def check_c05(run):
     run.build_harness()
     run.selftest()
     run_api_families(run, setter_families(run), keys="std", spmodes="late")
+    run_traces(run, salt=5, parse_only=10)
     run.assumptions.append("histories over the value alphabets of DESIGN.md 4/C05 (chosen to hit every guard and early return of each setter); arbitrary string values only through recorded random traces")
     return run.finish("model_checking", "all setter histories up to the tree depth over the value alphabets x 17 start URLs, plus the closure of the URL "
                       "records under a seed-chosen op sub-alphabet (every transition replayed as path-to-source + op); a case is distinct by the "
@@ -197,6 +217,7 @@ def check_c03(run):
         absorb(run, M, S, fam.name)
     # after setters: the expected state carries the expected re-parse (the standard's own exceptions are computed, not hard-coded)
     run_api_families(run, setter_families(run, with_rt=True), keys="std", spmodes="late")
+    run_traces(run, salt=3, pinned=["http://a\u2260b/"])
     run.assumptions.append("the standard's own non-round-tripping states (file + non-normalized drive letter, file://localhost via protocol setter) are computed by the specification per state; the code must then behave exactly as the standard does")
     return run.finish("model_checking", "every terminal state of the parse families is re-parsed on the real code (identity demanded; TLC checks the same "
                       "invariant on the specification), and every state of the setter trees/closure carries the specification's expected re-parse "
@@ -216,6 +237,7 @@ def check_c04(run):
         if f.name == "struct" and run.tier == "quick":
             f.maxlen = 3
     run_parse_families(run, fams, keys="shape")
+    run_traces(run, salt=4)
     run.assumptions.append("WellFormed/Composition/Derived are TLC invariants on every reachable specification state; the code is held to them through equality of the full projection (19 getters) with the specification state")
     return run.finish("model_checking", "closure and bounded trees of the object machine (setters, resolve of further references, clone) plus parse families; "
                       "TLC checks WellFormed, ComponentsOk, CompositionG, DerivedG on every state; every state is replayed and all 19 getters compared; "
@@ -233,6 +255,7 @@ def check_c19(run):
     for f in fams:
         f.invariants += ["GettersInv"]
     run_parse_families(run, fams, keys="derived,hostname,port,href")
+    run_traces(run, salt=19, parse_only=20)
     return run.finish("model_checking", "the derived accessors are functions of the primary components in the specification (DerivedG checked by TLC on "
                       "every state); histories of parse / resolve / setter / clone are replayed and IsIPv4, IsIPv6, DecodedPort, Scheme, Query, Fragment, "
                       "OpaquePath, IsSpecialScheme, Href(true) compared after every step; distinct = distinct expected final states")
@@ -298,6 +321,7 @@ def check_c12(run):
         ApiFamily("sync_closure", starts[:3], setter_ops=r.sample(setters, 6), sp_ops=sp_ops(names[:2], values[:2]), mode="closure", properties=("WriteThrough",)),
     ]
     run_api_families(run, fams, keys="href,query,search,pathname,hash")
+    run_traces(run, salt=12, parse_only=10)
     return run.finish("model_checking", "all interleavings (bounded trees and closure) of SearchParams mutations, SetSearch and the other setters from "
                       "special / non-special / opaque starts; after every step Href, Query, Search and the stored list are compared with the specification, "
                       "with the SearchParams handle taken before the first call (early) and afresh (late)")
@@ -317,6 +341,7 @@ def check_c13(run):
                   depth=3 if q else 4, nh=3, clone=True, properties=("Independence",)),
     ]
     run_api_families(run, fams, keys="all")
+    run_traces(run, salt=13, parse_only=10)
     return run.finish("model_checking", "three handles: parse, resolve, clone, then any setter / SearchParams mutation on either side; after every call "
                       "ALL live handles are projected (19 getters + stored parameter list) and compared with the specification, in which an action changes "
                       "only the handle it acts on (Independence action property)")
